@@ -886,6 +886,10 @@ func (g *genState) genMethod(idx int) Method {
 			m.Features = append(m.Features, "skip")
 		case 1:
 			pats := []string{"/^" + path[:1] + "/", "/idden$/", "/\\.h/", "/(?i)" + strings.ToLower(path) + "/", "/^" + path + "\\./", "/unexp/", "/\\.y$/"}
+			if g.opt.CaseBias && g.rng.Intn(2) == 0 {
+				// under the folded rule a group can stay case-sensitive: only the regexp engine knows
+				pats = []string{"/^(?-i:" + path[:1] + ")/", "/^(?-i:" + strings.ToLower(path[:1]) + ")/", "/(?-i:" + path[len(path)-1:] + ")$/", "/^.{2,5}$/"}
+			}
 			// counted repetitions (a comma inside the expression) and a group that stays case-sensitive under (?i)
 			pats = append(pats, "/^.{2,5}$/", "/^[A-Za-z]{3,}$/", "/^(?-i:"+path[:1]+")/", "/^(?-i:"+strings.ToLower(path[:1])+")/")
 			if g.opt.HiddenBias && g.rng.Intn(2) == 0 {
